@@ -68,12 +68,13 @@ type c09Case struct {
 	ReadBuf  int
 	SinkFail int // IntoWriter: fail after this many bytes; -1 never
 	MaxSize  int // ToByteSlice/CloneCopy limit
+	ErrWithData bool // reader sources: the failing Read hands out bytes together with the error
 	Task     bool // a succeeding background task is attached before consumption (what replicating decorators do)
 }
 
 func (cs *c09Case) String() string {
-	return fmt.Sprintf("fn=%v content=%s %s(%d) ctor=%s backend=%v cuts=%v empty=%v errAt=%d eofmix=%v cons=%s off=%d maxChunk=%d readBuf=%d sinkFail=%d maxSize=%d task=%v",
-		cs.Fn, short(cs.Content), mmNames[cs.Mismatch], cs.MMArg, ctorNames[cs.Ctor], cs.Backend, cs.Cuts, cs.Empty, cs.ErrAt, cs.EOFMix, consNames[cs.Cons], cs.Off, cs.MaxChunk, cs.ReadBuf, cs.SinkFail, cs.MaxSize, cs.Task)
+	return fmt.Sprintf("fn=%v content=%s %s(%d) ctor=%s backend=%v cuts=%v empty=%v errAt=%d eofmix=%v cons=%s off=%d maxChunk=%d readBuf=%d sinkFail=%d maxSize=%d task=%v errWithData=%v",
+		cs.Fn, short(cs.Content), mmNames[cs.Mismatch], cs.MMArg, ctorNames[cs.Ctor], cs.Backend, cs.Cuts, cs.Empty, cs.ErrAt, cs.EOFMix, consNames[cs.Cons], cs.Off, cs.MaxChunk, cs.ReadBuf, cs.SinkFail, cs.MaxSize, cs.Task, cs.ErrWithData)
 }
 
 // delivered returns the bytes the source will present.
@@ -296,7 +297,7 @@ func runC09Case(c *sim.RunCtx, cs *c09Case) {
 		wantCode = codes.Internal
 	}
 	ioErr := InjectedError(codes.Unavailable, "c09")
-	script := &sim.SrcScript{Data: delivered, Cuts: cs.Cuts, Empty: cs.Empty, ErrAt: cs.ErrAt, Err: ioErr, EOFMix: cs.EOFMix}
+	script := &sim.SrcScript{Data: delivered, Cuts: cs.Cuts, Empty: cs.Empty, ErrAt: cs.ErrAt, Err: ioErr, EOFMix: cs.EOFMix, ErrWithData: cs.ErrWithData}
 	var st *sim.SrcStats
 	var res consumeResult
 	c.Sim(sim.SimOpts{MaxSteps: 20000, DeadlockClass: "deadlock"}, func(s *rt.Sched) {
@@ -532,6 +533,7 @@ func drawC09Case(t *sim.Tape) *c09Case {
 		cs.MaxSize = t.Choose(n + 2)
 	}
 	cs.Task = t.Chance(1, 5)
+	cs.ErrWithData = cs.Ctor == ctorReader && cs.ErrAt >= 0 && t.Chance(1, 2)
 	return cs
 }
 
